@@ -499,6 +499,44 @@ func TestC18_Expand(t *testing.T) {
 					}
 				}
 			}
+			// decoding in two steps - PartialDecode with one half of the spec, then (after asking
+			// for its variables, which also reads the remaining body) Decode of the remaining body
+			// with the other half - gives the fields of the one-step result
+			if !gdiags.HasErrors() && ms.Kind == gen.SObject && len(ms.Fields) >= 2 && rapid.IntRange(0, 2).Draw(t, "two_step_decode") == 0 {
+				specA, specB := hcldec.ObjectSpec{}, hcldec.ObjectSpec{}
+				for _, n := range ms.FieldNames() {
+					if rapid.Bool().Draw(t, "half") {
+						specA[n] = toHCLDec(ms.Fields[n])
+					} else {
+						specB[n] = toHCLDec(ms.Fields[n])
+					}
+				}
+				if len(specA) > 0 && len(specB) > 0 {
+					c.Class("two_step_decode")
+					var vA, vB cty.Value
+					var dA, dB hcl.Diagnostics
+					c.Guard("PartialDecode + Decode(remain)", func() {
+						var remain hcl.Body
+						vA, remain, dA = hcldec.PartialDecode(dynblock.Expand(f.Body, ctx), specA, ctx)
+						_ = hcldec.Variables(remain, specB)
+						_, _, _ = hcldec.PartialDecode(remain, specB, ctx)
+						vB, dB = hcldec.Decode(remain, specB, ctx)
+					})
+					if dA.HasErrors() || dB.HasErrors() {
+						c.Failf("two-step-error", "one-step decoding is error-free but PartialDecode reports %s and Decode of the remaining body %s", diagStr(dA), diagStr(dB))
+					}
+					for n := range specA {
+						if !vA.GetAttr(n).RawEquals(got.GetAttr(n)) {
+							c.Failf("two-step-value", "field %s: PartialDecode gives %#v, one-step decoding %#v", n, vA.GetAttr(n), got.GetAttr(n))
+						}
+					}
+					for n := range specB {
+						if !vB.GetAttr(n).RawEquals(got.GetAttr(n)) {
+							c.Failf("two-step-value", "field %s: Decode of the remaining body (read twice before) gives %#v, one-step decoding %#v", n, vB.GetAttr(n), got.GetAttr(n))
+						}
+					}
+				}
+			}
 			// reference: expand, then decode
 			env := refEnv(sc)
 			ex := ref.ExpandDyn(tree, env)
